@@ -218,7 +218,8 @@ func (n ConverterNode) ReturnsError() bool {
 // For example, it returns "dst.User.Name", "dst.User.Status()", "strconv.Itoa(dst.User.Score())", etc.
 func (n ConverterNode) AssignExpr() string {
 	refStr := ""
-	if !util.IsPtr(n.arg.ExprType()) && util.IsPtr(n.converter.ArgType()) {
+	if util.IsPtr(n.converter.ArgType()) && !types.AssignableTo(n.arg.ExprType(), n.converter.ArgType()) {
+		// The argument was matched against the pointee type of the parameter; pass its address.
 		refStr = "&"
 	}
 	return fmt.Sprintf("%v(%v%v)", n.converter.Converter(), refStr, n.arg.AssignExpr())
